@@ -235,6 +235,7 @@ fn build_side(case: &Case, prepop: &Prepop, log: CallLog, relative_root: bool) -
 fn test(case: &Case, st: &mut Stats, counting: bool) -> CaseResult {
     let watch = JailWatch::new();
     let mut trace: Vec<String> = vec![];
+    let mut crossfs = 0usize; // transfers between the altroot and an unrelated filesystem
     let mut held = 0usize; // create sessions held open and inspected through the underlying filesystem
     let mut facts = (0usize, 0usize, 0usize, false); // hostile mutating ops, executed, tolerated ancestor lookups, content next to P
     let pool = {
@@ -282,6 +283,13 @@ fn test(case: &Case, st: &mut Stats, counting: bool) -> CaseResult {
         // snapshots are taken while the log is ignored (cleared afterwards)
         let a_under = a.plain.clone();
         let b_under = b.plain.clone();
+        // two unrelated filesystems for transfers across the boundary
+        let other_a = VfsPath::new(vfs::MemoryFS::new());
+        let other_b = VfsPath::new(vfs::MemoryFS::new());
+        for o in [&other_a, &other_b] {
+            use std::io::Write;
+            o.join("seed").map_err(|e| e0(e.to_string()))?.create_file().map_err(|e| e0(e.to_string()))?.write_all(b"seed from another filesystem").map_err(|e| e0(e.to_string()))?;
+        }
         let uni = universe(&pool, depth);
         let ctx = Ctx { pool: &pool, depth, uni: &uni };
         let snap_a0 = snapshot(&a_under);
@@ -334,6 +342,45 @@ fn test(case: &Case, st: &mut Stats, counting: bool) -> CaseResult {
                 facts.0 += 1;
             }
             facts.1 += 1;
+            // now and then a transfer crosses the filesystem boundary: out of the altroot into an
+            // unrelated MemoryFS, or from there into the altroot (the twin does the same on P/q)
+            if raw.mode2 % 7 == 5 && matches!(op_q, Op::CopyFile(..) | Op::CopyDir(..) | Op::MoveFile(..)) {
+                let name = format!("/x{}", step);
+                let import = raw.mode % 3 == 0 && matches!(op_q, Op::CopyFile(..));
+                let tp = at(&b_under, &format!("{}{}", p_total, q)).map_err(|e| (step, e.to_string()))?;
+                let (ra, rb, what) = if import {
+                    let (sa_, sb_) = (at(&other_a, "/seed").map_err(|e| (step, e.to_string()))?, at(&other_b, "/seed").map_err(|e| (step, e.to_string()))?);
+                    (sa_.copy_file(&vp).map(|_| 0u64), sb_.copy_file(&tp).map(|_| 0u64), format!("copy_file(other:'/seed' -> '{}')", q))
+                } else {
+                    let (da, db) = (at(&other_a, &name).map_err(|e| (step, e.to_string()))?, at(&other_b, &name).map_err(|e| (step, e.to_string()))?);
+                    match op_q {
+                        Op::CopyFile(..) => (vp.copy_file(&da).map(|_| 0u64), tp.copy_file(&db).map(|_| 0u64), format!("copy_file('{}' -> other:'{}')", q, name)),
+                        Op::MoveFile(..) => (vp.move_file(&da).map(|_| 0u64), tp.move_file(&db).map(|_| 0u64), format!("move_file('{}' -> other:'{}')", q, name)),
+                        _ => (vp.copy_dir(&da), tp.copy_dir(&db), format!("copy_dir('{}' -> other:'{}')", q, name)),
+                    }
+                };
+                trace.push(format!("{} -> altroot {} / twin {}", what, if ra.is_ok() { "ok" } else { "err" }, if rb.is_ok() { "ok" } else { "err" }));
+                if ra.is_ok() != rb.is_ok() || (ra.is_ok() && ra.as_ref().ok() != rb.as_ref().ok()) {
+                    return Err((step, format!("{}: through the altroot {:?}, on P/q directly {:?}", what, ra.map_err(|e| e.to_string()), rb.map_err(|e| e.to_string()))));
+                }
+                let (oa, ob) = (snapshot(&other_a), snapshot(&other_b));
+                if oa.tree != ob.tree {
+                    return Err((step, format!("{}: the other filesystem differs from the twin's: {:?}", what, diff_trees(&ob.tree, &oa.tree))));
+                }
+                let sa = snapshot(&a_under);
+                let sb = snapshot(&b_under);
+                if sa.tree != sb.tree {
+                    return Err((step, format!("after {}: the underlying filesystem differs from the twin that received the call on P/q directly: {:?}", what, diff_trees(&sb.tree, &sa.tree))));
+                }
+                view = subtree(&sa.tree, &p_total);
+                log.lock().unwrap().clear();
+                crossfs += 1;
+                if ra.is_err() {
+                    // a composite that failed on both sides: partial effects are unspecified
+                    break;
+                }
+                continue;
+            }
             // now and then a create session is held open: what the underlying filesystem shows
             // while the altroot's handle is open must be what it shows for a handle opened on P/q
             if let (Op::CreateFile(_, bytes), true) = (&op_q, raw.mode2 % 5 == 3) {
@@ -482,6 +529,7 @@ fn test(case: &Case, st: &mut Stats, counting: bool) -> CaseResult {
                 }
                 st.label_n("ops_executed", facts.1 as u64);
                 st.label_n("create_sessions_held_open", held as u64);
+                st.label_n("cross_filesystem_transfers", crossfs as u64);
                 st.label_n("hostile_mutating_ops", facts.0 as u64);
                 st.label_n("tolerated_ancestor_lookups", facts.2 as u64);
                 if nt {
@@ -572,7 +620,7 @@ pub fn replay(v: &Value) -> CaseResult {
     test(&case, &mut st, false)
 }
 
-const RULE: &str = "underlying U in {Mem, Phys, Overlay[..], Overlay on sub-paths} pre-populated inside and outside P; P = 0..3 components drawn from the case's own name pool (so that children named like P occur), optionally an altroot of an altroot, or no altroot at all (backend root used directly); a plain PhysicalFS underlying is built from a RELATIVE root path ('../<dir>/jail/root') in half of the cases while its twin uses the absolute path; create sessions are now and then held open and the underlying filesystem inspected meanwhile; typed C01 ops whose path arguments are join()ed from hostile strings ('../'-climbs, absolute restarts, detours, backslashes, '%2e', names glued to '..', P's own name); oracles: (1) twin instance U' receives the call on P/q (q by the independent reference resolver): same outcome class/value and identical WHOLE underlying snapshots after every step, and the altroot view equals the subtree below P; (2) a recorder between altroot and U: every trait call's path lies in P (exists/metadata on proper ancestors of P tolerated and counted); (3) OS jail around every PhysicalFS root (sentinel sibling, parent, cwd, '/') unchanged; non-trivial = >=1 mutating op issued through a hostile argument while content exists next to P";
+const RULE: &str = "underlying U in {Mem, Phys, Overlay[..], Overlay on sub-paths} pre-populated inside and outside P; P = 0..3 components drawn from the case's own name pool (so that children named like P occur), optionally an altroot of an altroot, or no altroot at all (backend root used directly); a plain PhysicalFS underlying is built from a RELATIVE root path ('../<dir>/jail/root') in half of the cases while its twin uses the absolute path; create sessions are now and then held open and the underlying filesystem inspected meanwhile; copy_file / move_file / copy_dir out of the altroot into an unrelated MemoryFS and copy_file from there into the altroot, the twin doing the same on P/q (same outcome, same other filesystem, same underlying tree); typed C01 ops whose path arguments are join()ed from hostile strings ('../'-climbs, absolute restarts, detours, backslashes, '%2e', names glued to '..', P's own name); oracles: (1) twin instance U' receives the call on P/q (q by the independent reference resolver): same outcome class/value and identical WHOLE underlying snapshots after every step, and the altroot view equals the subtree below P; (2) a recorder between altroot and U: every trait call's path lies in P (exists/metadata on proper ancestors of P tolerated and counted); (3) OS jail around every PhysicalFS root (sentinel sibling, parent, cwd, '/') unchanged; non-trivial = >=1 mutating op issued through a hostile argument while content exists next to P";
 
 pub fn run(ctx: &RunCtx) -> i32 {
     ensure_cwd();
